@@ -402,7 +402,8 @@ CONSTRUCT = {
     "BINFLOAT": [lambda x, b, s: F.BinFloat(1.5)],
 }
 INT_ARG = {"BININT1", "BININT2", "BININT", "LONG1", "LONG4", "INT", "LONG", "BINPUT", "LONG_BINPUT", "BINGET", "LONG_BINGET", "FRAME"}
-B_SAMPLES = [b"", b"a", b"ab", b"\x7f", b"\x80", b"\xc3\xa9", b"\n", b"\\", b"\r", b"\x00", b"\\u0041", b"\x1f "]
+B_SAMPLES = [b"", b"a", b"ab", b"\x7f", b"\x80", b"\xc3\xa9", b"\n", b"\\", b"\r", b"\x00", b"\\u0041", b"\x1f ",
+             "a\U0001f600b".encode(), "\U0001f600\xe9\u20acz".encode(), b"\\\\users", b"x\\\\\\\\U1"]
 S_SAMPLES = ["", "a", "ab", "'", "\xe9", "\n", "\\", "€", '"']
 X_SAMPLES = [0, 1, 5, 127, 128, 255, 256, 65535, 65536, -1, 2 ** 31 - 1, 2 ** 31]
 NAMES = sorted(F.OPCODES_BY_NAME)
@@ -410,7 +411,7 @@ NAMES = sorted(F.OPCODES_BY_NAME)
 
 def opcode_readback(n: int, v: int, x: int, bi: int, si: int) -> bool:
     """
-    pre: 0 <= n < 64 and 0 <= v < 2 and 0 <= bi < 12 and 0 <= si < 9
+    pre: 0 <= n < 64 and 0 <= v < 2 and 0 <= bi < 16 and 0 <= si < 9
     post: _
     """
     if n >= len(NAMES):
@@ -530,12 +531,12 @@ def raw_escape(b0: int, b1: int) -> bool:
 
 
 # ------------------------------------------------------------------------------------ cli --create
-CREATE_SAMPLES = ["1+1", "print('x')", "a\\nb", "caf\xe9", "€", "x\ny", "'q'", "\x7f", "\x80"]
+CREATE_SAMPLES = ["1+1", "print('x')", "a\\nb", "caf\xe9", "€", "x\ny", "'q'", "\x7f", "\x80", "a\U0001f600b", "\U0001f600\xe9€z", "C:\\\\users\\u", "\\\\u0041\\U0001f600"]
 
 
 def cli_create(i: int) -> bool:
     """
-    pre: 0 <= i < 9
+    pre: 0 <= i < 13
     post: _
     """
     i = pin(i, 0, len(CREATE_SAMPLES) - 1)
